@@ -54,9 +54,9 @@ func VerifC33Pair() {
 	vSchedBudget(vParam("PRE", 0), vParam("SCH", 1))
 	acts := vParam("ACTS", 2)
 	used := map[int]bool{}
-	// MENU: bit mask of the activities to choose from (0: all 13)
+	// MENU: bit mask of the activities to choose from (0: all 14)
 	var menu []int
-	for k := 0; k < 13; k++ {
+	for k := 0; k < 14; k++ {
 		if m := vParam("MENU", 0); m == 0 || (m>>uint(k))&1 == 1 {
 			menu = append(menu, k)
 		}
@@ -114,6 +114,10 @@ func VerifC33Pair() {
 			}()
 		case 12:
 			go func() { _ = s.Close() }()
+		case 13: // a disconnects and changes its session expiry interval with the DISCONNECT (MQTT 5)
+			if aLive && verA == 5 {
+				vConnFeed(a, []byte{0xE0, 7, 0x00, 5, 0x11, 0, 0, 0, 60})
+			}
 		}
 	}
 	vDrain()
